@@ -425,12 +425,15 @@ func runC14Real(w *core.WorkerCtx, k int) *core.CaseResult {
 // ---------------------------------------------------------------------------
 // C12: a scrape_timeout that is not a whole number of seconds, and a target that answers within it
 
-const c12FracCases = 4
+const c12FracCases = 6
 
 // runC12Frac: the job's scrape_timeout is 1.9 s (or 2.5 s) and the target answers completely after 1.3 s (2.2 s).
 // A delivery that breaks off BEFORE the configured timeout has passed is a violation (the proxy gave up early);
 // one that breaks off later is the timeout doing its work on a loaded machine and decides nothing (three tries).
 func runC12Frac(w *core.WorkerCtx, k int) *core.CaseResult {
+	if k >= 4 {
+		return runC12Raised(w, k-4)
+	}
 	timeout, delay, floor := "1s900ms", 1300, 1700*time.Millisecond
 	if k%2 == 1 {
 		timeout, delay, floor = "2s500ms", 2200, 2400*time.Millisecond
@@ -471,4 +474,42 @@ func runC12Frac(w *core.WorkerCtx, k int) *core.CaseResult {
 		res.AddStat("scrapes_under_a_fractional_timeout_that_really_timed_out_on_a_loaded_machine", 1)
 	}
 	return res // three real timeouts: the machine is too loaded for this case to say anything
+}
+
+// runC12Raised: the job starts with scrape_timeout 1 s; a reload raises it to 120 s (nothing else changes); a target
+// that then answers completely after 1.6 s is within the timeout now in force, whatever the machine's load.
+func runC12Raised(w *core.WorkerCtx, k int) *core.CaseResult {
+	gz := k%2 == 1
+	res := &core.CaseResult{Sig: fmt.Sprintf("timeout-raised-by-reload/gzip%v", gz), Execs: 1, Nontrivial: true}
+	r := core.NewRng(w.Seed, 0xC12A, uint64(k))
+	body := Render(GenSamples(r, 1000+r.Intn(1000)), false)
+	dir := filepath.Join(w.Scratch, fmt.Sprintf("c12raised-%d", k))
+	defer os.RemoveAll(dir)
+	rg, err := newRig(dir, "1s", "")
+	if err != nil {
+		res.Inconcl = "rig: " + err.Error()
+		return res
+	}
+	defer rg.close()
+	const h = uint64(11)
+	if err := rg.assign("j1", h); err != nil {
+		res.Inconcl = "assign: " + err.Error()
+		return res
+	}
+	host := fmt.Sprintf("t%d.example:9100", h)
+	rg.mt.set(host, &bodyScript{Body: body, Gzip: gz})
+	_ = rg.scrapeDirect("j1", h, 0) // the job has been used under the old timeout
+	if err := rg.in.PushConfig(fmt.Sprintf(rigConfigTmpl, rigLongTimeout, "")); err != nil {
+		res.Inconcl = "reload with a higher scrape_timeout: " + err.Error()
+		return res
+	}
+	rg.hookClients()
+	rg.mt.set(host, &bodyScript{Body: body, Gzip: gz, DelayMs: 1600})
+	t0 := time.Now()
+	o := rg.scrapeDirect("j1", h, 0)
+	res.AddStat("scrapes_after_a_reload_that_raised_the_timeout", 1)
+	if o.Status != 200 || o.Aborted || !bytes.Equal(o.Body, body) {
+		res.Violate("C12/timeout-raised-by-reload/not-delivered", "scrape_timeout raised from 1 s to %s by a reload, the target answers completely after 1.6 s: the proxy ended the scrape after %v (status %d, aborted %v, %d of %d bytes)", rigLongTimeout, time.Since(t0).Round(time.Millisecond), o.Status, o.Aborted, len(o.Body), len(body))
+	}
+	return res
 }
